@@ -246,10 +246,14 @@ class OptimizationHistory:
             return self.Solution(f_opt, x_opt, False, c_opt, c_opt_grad)
 
         # Case 2: the solution is feasible; we return it.
-        f_opt, x_opt = inf, array([])
-        c_opt = {}
-        c_opt_grad = {}
+        # The first feasible point is selected until a point with a lower objective
+        # value is found, in particular when no feasible point has an objective value.
         obj_name = self.objective_name
+        func = Database.get_gradient_name
+        f_opt, x_opt = inf, feas_x[0]
+        c_opt = {c.name: feas_f[0].get(c.name) for c in constraints}
+        c_opt_grad = {c.name: feas_f[0].get(func(c.name)) for c in constraints}
+        has_objective_value = False
         for i, output_values in enumerate(feas_f):
             obj_value = output_values.get(obj_name)
             if obj_value is None:
@@ -259,6 +263,7 @@ class OptimizationHistory:
                 obj_value = norm(obj_value)
 
             if obj_value < f_opt:
+                has_objective_value = True
                 f_opt = obj_value
                 x_opt = feas_x[i]
                 for constraint in constraints:
@@ -266,6 +271,9 @@ class OptimizationHistory:
                     c_opt[c_name] = output_values.get(c_name)
                     c_key = Database.get_gradient_name(c_name)
                     c_opt_grad[constraint.name] = output_values.get(c_key)
+
+        if not has_objective_value:
+            f_opt = feas_f[0].get(obj_name)
 
         if isinstance(f_opt, ndarray) and len(f_opt) == 1:
             f_opt = f_opt[0]
